@@ -212,10 +212,18 @@ func (c *cloner) copyInfo(old, nw ast.Node) {
 	case *ast.Ident:
 		ni := nw.(*ast.Ident)
 		if o, ok := info.Uses[x]; ok {
-			info.Uses[ni] = c.mapObj(o)
+			m := c.mapObj(o)
+			info.Uses[ni] = m
+			if m != nil && m != o && m.Name() != ni.Name && ni.Name != "_" {
+				ni.Name = m.Name() // mapped onto a variable of the caller
+			}
 		}
 		if o, ok := info.Defs[x]; ok {
-			info.Defs[ni] = c.mapObj(o)
+			m := c.mapObj(o)
+			info.Defs[ni] = m
+			if m != nil && o != nil && m != o && m.Name() != ni.Name && ni.Name != "_" {
+				ni.Name = m.Name()
+			}
 		}
 		if inst, ok := info.Instances[x]; ok {
 			info.Instances[ni] = inst
